@@ -222,3 +222,4 @@ reg("C14", gen=gen_zone.gen_c14, post=gen_zone.post_c14)
 reg("C07", gen=gen_fmt.gen_c07)
 reg("C08", gen=gen_fmt.gen_c08, ub_is_violation=True)
 reg("C09", gen=gen_fmt.gen_c09, ub_is_violation=True)
+reg("C18", gen=gen_fmt.gen_c18, ub_is_violation=False)
